@@ -136,6 +136,54 @@ slice_array!(slice_array_len3_c, 3, 7);
 slice_array!(slice_array_len4_a, 4, 4);
 slice_array!(slice_array_len4_b, 4, 7);
 
+/// the same slices after the constant-folding pass (`Slicing::recreate` sees constant bounds whose values
+/// are symbolic): folding must not change which elements are selected
+fn slice_array_folded_case(n: usize, mask: u8) {
+    declare();
+    {
+        use crate::instruction::verif_gate::*;
+        allow_mask((1 << K_VARIABLE) | (1 << K_SLICING));
+    }
+    let (start, stop, step) = bounds(mask);
+    let ins = Slicing { lhs: const_ins(arr(n)), start: opt_ins(start), stop: opt_ins(stop), step: opt_ins(step) };
+    let interp0 = Interpreter::without_stdlib();
+    let mut lv = crate::instruction::local_variable::LocalVariables::new(&interp0);
+    let folded = match crate::instruction::Recreate::recreate(&ins, &mut lv) {
+        Ok(i) => i,
+        Err(_) => panic!("folding a slice failed"),
+    };
+    std::mem::forget(lv);
+    let mut interp = Interpreter::without_stdlib();
+    let r = folded.exec(&mut interp);
+    let (first, cnt, st) = py_slice(n, start, stop, step);
+    match r {
+        Ok(Variable::Array(a)) => {
+            assert!(a.len() == cnt);
+            let mut k = 0;
+            while k < cnt {
+                let idx = (first + (k as i128) * st) as usize;
+                assert!(is_elem(&a[k], idx));
+                k += 1;
+            }
+        }
+        Ok(_) => panic!("slice of an array is not an array"),
+        Err(_) => panic!("slicing failed"),
+    }
+}
+macro_rules! slice_array_folded {
+    ($name:ident, $n:expr, $($mask:expr),*) => {
+        #[kani::proof]
+        #[kani::unwind(7)]
+        #[kani::stub(alloc::fmt::format, crate::verif_common::stub_format)]
+        pub fn $name() {
+            $( slice_array_folded_case($n, $mask); )*
+            kani::cover!(true);
+        }
+    };
+}
+slice_array_folded!(slice_array_folded_len2, 2, 7);
+slice_array_folded!(slice_array_folded_len3, 3, 5);
+
 fn str_case(which: u8) -> (&'static str, usize, [&'static str; 4]) {
     match which {
         0 => ("", 0, ["", "", "", ""]),
